@@ -128,6 +128,38 @@ def large_cases(tier):
                      st.sampled_from([1e-1, 1e-2, 1e-4])).map(_large_case)
 
 
+def _toll_road(t):
+    """a long free road with a toll at its end: start -> (goal | road) by a risky action, or -> goal directly at a price;
+    with h = 0 one check-solved pass has to walk the whole road before it meets the cost"""
+    from vpm.labels import enc
+    L, toll, direct, w_goal, w_road, seed, rao, margin = t
+    n = L + 3                                    # 0 goal, 1 start, 2..L+1 road, L+2 toll booth
+    tr = [[[0, [[0, 1, 0]]]], [[0, [[0, w_goal, 0], [2, w_road, 0]]], [1, [[0, 1, direct]]]]]
+    for i in range(2, L + 2):
+        tr.append([[0, [[i + 1, 1, 0]]]])
+    tr.append([[0, [[0, 1, toll]]]])
+    spec = {"n": n, "m": 2, "gamma": 1.0, "flavour": "ssp", "slabels": [enc(i) for i in range(n)], "alabels": [enc(0), enc(1)],
+            "trans": tr, "absorbing": [1] + [0] * (n - 1), "p0": [[1, 1]], "explicit_states": None, "explicit_actions": None, "large": True}
+    return {"mdp": spec, "heuristic": {"kind": "const", "slack": [0] * n, "const_extra": 0}, "margin": margin,
+            "seed": seed % (10 ** 6), "randomize_action_order": rao}
+
+
+def xl_cases(tier):
+    from vpm.gen.mdp import large_mdp_specs
+    road = st.tuples(st.sampled_from([40, 300, 505, 560, 620]), st.sampled_from([-100, -30]), st.sampled_from([-5, -2]),
+                     st.sampled_from([1, 2]), st.sampled_from([1, 1, 2]), st.integers(0, 2 ** 32), st.booleans(),
+                     st.sampled_from([1e-1, 1e-2])).map(_toll_road)
+    return st.one_of(road, _random_xl())
+
+
+def _random_xl():
+    from vpm.gen.mdp import large_mdp_specs
+    return st.tuples(st.one_of(large_mdp_specs("dproper", min_states=520, max_states=640, max_actions=2, max_out=2),
+                               large_mdp_specs("ssp", min_states=520, max_states=640, max_actions=2, max_out=2)),
+                     st.sampled_from(["const", "slack"]), st.integers(0, 2 ** 32), st.booleans(),
+                     st.sampled_from([1e-1, 1e-2])).map(_large_case)
+
+
 def prop_lrtdp(case, ctx):
     from msdm.algorithms.lrtdp import LRTDP, LRTDPEventListener
     spec = case["mdp"]
@@ -276,4 +308,6 @@ PROPS = [Prop("reuse", lambda tier: reuse_cases(tier), prop_reuse, quick=400, th
          Prop("lrtdp", lambda tier: cases(tier), prop_lrtdp, quick=5000, thorough=300000,
               doc="LRTDP termination, upper-bound invariant, margin bounds, absorbing-state conventions"),
          Prop("lrtdp_large", large_cases, prop_lrtdp, quick=150, thorough=9000,
-              doc="the same on MDPs with 16-45 states (reference optimum by certified policy iteration)")]
+              doc="the same on MDPs with 16-45 states (reference optimum by certified policy iteration)"),
+         Prop("lrtdp_xl", xl_cases, prop_lrtdp, quick=20, thorough=400,
+              doc="the same on MDPs with 520-640 states (check-solved passes over more than 500 states)")]
